@@ -46,6 +46,7 @@ Print Assumptions C14_sticky_run_continues.
    (after \n decoding for string literals) and its span is (from, to) *)
 Theorem C14_emitted_text_is_slice : forall k l st l',
   next_loop (S k) l st = NTrue l' -> finished l = false ->
+  (l_to l <? l_len l) && (l_rdr l >=? l_len l) = false ->     (* the reader is in step with the cursor *)
   (forall r, state_fn st (fst (fst
        (if l_to l >=? l_len l then (EOFr, 0, l_rdr l)
         else let (r0, sz) := decode_rune (skipn (Z.to_nat (l_rdr l)) (l_input l)) in
@@ -57,7 +58,7 @@ Theorem C14_emitted_text_is_slice : forall k l st l',
                                 | _ => slice (l_input l) (l_from l) (l_to l)
                                 end)).
 Proof.
-  intros k l st l' H Hf r Hr He Hm. cbn [next_loop] in H. rewrite Hf in H.
+  intros k l st l' H Hf Hrd r Hr He Hm. cbn [next_loop] in H. rewrite Hf, Hrd in H.
   destruct (if l_to l >=? l_len l then (EOFr, 0, l_rdr l)
             else let (r0, sz) := decode_rune (skipn (Z.to_nat (l_rdr l)) (l_input l)) in
                  ((if r0 =? EOFr then RuneError else r0), sz, l_rdr l + sz)) as [[c0 s] rdr'] eqn:E.
